@@ -500,9 +500,11 @@ func (c *Compiler) applyUsesToNode(mod, nod, use parse.Node, parentStatus schema
 		c.error(use, err)
 	}
 	if gmod == mod {
-		// Local grouping. Search the grouping space of the local node,
-		// not just the module globals. Also check for status conflicts
-		group, ok = nod.LookupGrouping(gname.Local)
+		// Local grouping. Search the grouping space of the uses statement
+		// (the scope it is written in), not just the module globals: a uses
+		// inside an augment inside a uses sits below a node that may have
+		// been written in another module. Also check for status conflicts
+		group, ok = use.LookupGrouping(gname.Local)
 	} else {
 		group, ok = gmod.LookupGrouping(gname.Local)
 	}
